@@ -241,6 +241,20 @@ theorem C11_inverted_once {span : Period} {last : Int} {P : Partition}
   refine ⟨by rw [hp]; simp [periodsOf], ?_⟩
   intro d hd; unfold inP at hd; omega
 
+/-- **which days enter a report**: `Partition.Contains` is membership in the requested window, whatever
+`--last` and the interval are (so days before the first shown period are kept and, by `C11_align_before`,
+attributed to the first period). -/
+theorem C11_contains_iff_window {span : Period} {iv : Interval} {last : Int} {P : Partition}
+    (h : newPartition span iv last = .ok P) (d : Int) :
+    P.contains d = true ↔ inP span d := by
+  unfold newPartition at h
+  split at h
+  · cases h
+  · injection h with h; subst h
+    unfold Partition.contains Period.contains inP
+    simp only [Bool.and_eq_true, Bool.not_eq_true', decide_eq_false_iff_not]
+    constructor <;> intro ⟨x, y⟩ <;> constructor <;> omega
+
 /-- the guard of the code, stated as it is: a window starting at Go's zero time panics. -/
 theorem C11_zero_start_panics (span : Period) (iv : Interval) (last : Int) (h : span.start = 0) :
     newPartition span iv last = .panic "can't create partition with zero time" := by
